@@ -1,11 +1,11 @@
 SPECIFICATION Spec
 CONSTANTS
-  Scenarios <- ThoroughScenarios
+  Scenarios <- StaleScenarios
   LeaveFix = TRUE
-  MaxResets = 2
+  MaxResets = 1
   Faults = TRUE
-  StaleAcks = FALSE
-  MaxProcs = 1
+  StaleAcks = TRUE
+  MaxProcs = 0
 VIEW view
 INVARIANT TypeOK
 INVARIANT StartedOnlyWhenAll
